@@ -378,7 +378,8 @@ class CoqEval:
             while pending or running:
                 while pending and len(running) < jobs:
                     si, path = pending.pop(0)
-                    p = subprocess.Popen(["coqc"] + QFLAGS + [path], cwd=tmp, stdout=subprocess.PIPE,
+                    # output goes to a file: a pipe would block coqc once 64 KB are pending
+                    p = subprocess.Popen(["coqc"] + QFLAGS + [path], cwd=tmp, stdout=open(path + ".out", "w"),
                                          stderr=subprocess.STDOUT, text=True)
                     running.append((si, path, p))
                 still = []
@@ -386,7 +387,7 @@ class CoqEval:
                     if p.poll() is None:
                         still.append((si, path, p))
                     else:
-                        results[si] = (p.returncode, p.stdout.read())
+                        results[si] = (p.returncode, open(path + ".out", errors="replace").read())
                 running = still
                 if time.time() - t0 > timeout:
                     for si, path, p in running:
